@@ -1505,6 +1505,18 @@ StylesheetHandler::processInclude(
 void
 StylesheetHandler::endElement(const XMLCh* const    /* name */)
 {
+    // The text of an xsl:text element becomes a child of the parent of
+    // the element, and the element itself leaves no trace.  An empty one
+    // must still count as content: a variable that contains nothing but
+    // <xsl:text/> is a result tree fragment, not an empty string.
+    if (m_inTemplate == true &&
+        m_accumulateText.empty() == true &&
+        m_elemStack.empty() == false &&
+        m_elemStack.back()->getXSLToken() == StylesheetConstructionContext::ELEMNAME_TEXT)
+    {
+        processText(m_accumulateText.c_str(), 0);
+    }
+
     processAccumulatedText();
 
     m_whiteSpaceElems.clear();
